@@ -19,3 +19,4 @@ def klass(*a, **k): pass
 def lemma(*a, **k): pass
 def contract_family(*a, **k): pass
 def record_override(*a, **k): pass
+def MapOf(k, v): return ('MapOf', k, v)
